@@ -96,6 +96,20 @@ def _make_fn(name, sig, is_async, body_name):
     if sig["varkw"]:
         params.append("**kwargs")
     collect = "dict(%s)" % ", ".join("%s=%s" % (p, p) for p in list(sig["required"]) + list(sig["optional"]))
+    if is_async in ("future", "awaitable") and body_name == "_on_body":
+        # a plain function that hands back an awaitable which is not a coroutine: a Task, or an object with __await__
+        src = "def %s(%s):\n" % (name, ", ".join(params))
+        src += "    __kw = %s\n" % collect
+        if sig["varkw"]:
+            src += "    __kw.update(kwargs)\n"
+        src += "    __uid = (True, call_unique_id) if %s else (False, None)\n" % ("True" if sig["uid"] else "False")
+        src += "    async def later_():\n        await _ov_sleep(self, %r)\n        return %s(self, %r, __kw, __uid)\n" % (name, body_name, name)
+        if is_async == "future":
+            src += "    import asyncio\n    return asyncio.ensure_future(later_())\n"
+        else:
+            src += "    class Aw_:\n        def __await__(s):\n            return later_().__await__()\n    return Aw_()\n"
+        return src
+    is_async = bool(is_async)
     src = "%sdef %s(%s):\n" % ("async " if is_async else "", name, ", ".join(params))
     if is_async:
         src += "    await _ov_sleep(self, %r)\n" % name
